@@ -86,3 +86,11 @@ func VerifDecodeDateTime(u uint32) time.Time { return decodeDateTime(u) }
 
 // VerifEncodeTime is the encoder's time -> FIT seconds conversion.
 func VerifEncodeTime(t time.Time) uint32 { return encodeTime(t) }
+
+// VerifResetAccumulators drops the package-level component accumulators, so
+// that the harness can start a call from the state of a fresh process.
+func VerifResetAccumulators() {
+	accumuDistance = nil
+	accumuTotalCycles = nil
+	accumuAccumulatedPower = nil
+}
